@@ -156,7 +156,7 @@ def run(tier, seed):
                sd.MoneyMarket._GenerateEquations, sd.DepositMarket._GenerateEquations, sfc_models.sector.Sector.AddCashFlow)
     from vf import zoolib
     zoolib.XCHECK_EVERY[0] = 25 if tier == 'quick' else 5
-    plans = Z.zoo(tier)
+    plans = Z.zoo(tier) + [p for p in Z.ambiguous() if 'market' in p.name]      # an ambiguous market wiring: refused, or - if a tree builds it - analysed like the others
     chk.bounds = {'topologies': len(plans), 'periods': 'any one period k>=1 (period b with model-consistent predecessor)',
                   'numeric domain': 'all reals (exogenous, lagged state, declared parameters); exchange rates > 0',
                   'declaration order': 'canonical (order is the subject of C08)'}
